@@ -287,6 +287,10 @@ def get_cauchy_point(
             )
 
     delta_t_min = 0 if delta_t_min < 0 else delta_t_min
+    if not d.any():
+        # every moving variable has been fixed: f' and f'' are mere rounding residues
+        # (f'' is floored at 1e-30 * f2_org) and their ratio is meaningless
+        delta_t_min = 0.0
     t_old += delta_t_min
 
     # d is zero for the variables already fixed at a bound: only the free ones move
